@@ -250,6 +250,9 @@ func runC01(c *Check, a *Analysis) {
 	ruleUseAfterRelease(c, a, "R-UAR", uarAll)
 	ruleSeqAdvanceOnPath(c, a, "R-SEQ-ADVANCE-PATH")
 	ruleRecycleClean(c, a, "R-RECYCLE-CLEAN")
+	ruleHeaderFresh(c, a, "R-HEADER-FRESH")
+	ruleResetClean(c, a, "R-RESET-CLEAN")
+	ruleSeqMonotone(c, a, "R-SEQ-MONOTONE")
 	rulePendingKeys(c, a, "R-PENDING-KEYS")
 	// a Call recycled while a response for it can still be processed receives another call's reply
 	ruleRecycle(c, a, computeCompletion(p), "R-RECYCLE")
